@@ -388,10 +388,29 @@ func c08Main(args []string) int {
 		sched.WorkerMain(scs)
 		return 0
 	}
+	if fs.NArg() > 0 && fs.Arg(0) == "syncworker" {
+		return c08SyncWorker()
+	}
+	syncReplay := false
 	if *replay != "" {
-		return sched.ReplayFile("C08", scs, *replay)
+		if b, err := os.ReadFile(*replay); err == nil && strings.Contains(string(b), "C08.wedge/client-sync/") {
+			// client-sync findings are reproduced by running that part again
+			if err := common.ReplayByRerun(*replay); err != nil {
+				fmt.Fprintln(os.Stderr, err)
+				return 2
+			}
+			syncReplay = true
+		} else {
+			return sched.ReplayFile("C08", scs, *replay)
+		}
 	}
 	rep := common.NewReport("C08", "model_checking")
+	if syncReplay {
+		if c08SyncPart(rep) {
+			return 2
+		}
+		return rep.Finish()
+	}
 	pre, sd := 1, 2
 	budget := 45.0
 	if common.Tier() == "thorough" {
@@ -432,6 +451,12 @@ func c08Main(args []string) int {
 	sched.SpreadBudget(jobs, totalBudget, *procs, 35)
 	tot := sched.RunAll(rep, jobs, []string{"C08", "worker"}, *procs)
 	c08Evidence(rep, tot, pre, sd)
+	if *only == "" || *only == "sync" {
+		if c08SyncPart(rep) {
+			fmt.Fprintln(os.Stderr, "C08: client-sync part incomplete, no verdict")
+			return 2
+		}
+	}
 	if tot.Diverged > 0 {
 		fmt.Fprintf(os.Stderr, "C08: %d executions diverged during replay of a prefix (nondeterminism not owned)\n", tot.Diverged)
 		return 2
